@@ -296,7 +296,7 @@ func c17World(rng interface{ Intn(int) int }, seed int64, idx, g int, acyclicOnl
 	r := core.Rng(seed, "C17/world", idx*1000+g)
 	o := gen.WorldOpts{NDocs: 1 + r.Intn(3), Cyclic: !acyclicOnly && r.Intn(2) == 0, Nested: r.Intn(2) == 0, Chains: r.Intn(2) == 0, Elements: 2 + r.Intn(2), MaxDepth: 1 + r.Intn(2), RefDensity: 0.6}
 	if !acyclicOnly && r.Intn(3) == 0 {
-		o.MissingDoc, o.Dangling = 0.15, 0.1 // calls that fail must fail the same way, and must not hold up the others
+		o.MissingDoc, o.Dangling, o.HollowDoc = 0.15, 0.1, 0.15 // calls that fail must fail the same way, and must not hold up the others
 	}
 	return gen.GenWorld(r, o)
 }
@@ -331,6 +331,9 @@ func c17Run(env *core.Env, idx int) core.CaseResult {
 	case "distinct-documents":
 		for g := 0; g < N; g++ {
 			w := c17World(rng, env.Seed, idx, g, false)
+			if w.Features["fault.hollow-document"] > 0 {
+				res.Count("world-with-null-document", 1)
+			}
 			kind := g % 3
 			var mk func() spec.ResolutionCache
 			if g%2 == 0 {
@@ -382,6 +385,14 @@ func c17Run(env *core.Env, idx int) core.CaseResult {
 		}
 	case "shared-cache":
 		w := c17World(rng, env.Seed, idx, 0, true)
+		if idx%3 == 0 {
+			// the shared cache also sees documents that are missing or hollow (null): every caller fails, none may be held up
+			r := core.Rng(env.Seed, "C17/shared-faulty", idx)
+			w = gen.GenWorld(r, gen.WorldOpts{NDocs: 2 + r.Intn(2), Nested: r.Intn(2) == 0, Elements: 2 + r.Intn(2), MaxDepth: 1 + r.Intn(2), RefDensity: 0.6, MissingDoc: 0.1, HollowDoc: 0.3})
+			if w.Features["fault.hollow-document"] > 0 {
+				res.Count("world-with-null-document", 1)
+			}
+		}
 		shared := spec.VerifNewDefaultCache()
 		for g := 0; g < N; g++ {
 			jobs = append(jobs, c17Job{name: fmt.Sprintf("g%d", g), run: expandJob(w, 1, func() spec.ResolutionCache { return shared })})
@@ -673,6 +684,8 @@ func c17ColdStart(env *core.Env, k int) core.CaseResult {
 		return res
 	}
 	go func() { done <- cmd.Wait() }()
+	core.WaitingForChild.Add(1)
+	defer core.WaitingForChild.Add(-1)
 	var werr error
 	select {
 	case werr = <-done:
@@ -819,7 +832,7 @@ func ColdStartChild(seed int64) int {
 }
 
 func init() {
-	floors := []string{"workload.distinct-documents", "workload.shared-cache", "workload.shared-document", "workload.cache-history", "workload.cold-start",
+	floors := []string{"world-with-null-document", "workload.distinct-documents", "workload.shared-cache", "workload.shared-document", "workload.cache-history", "workload.cold-start",
 		"cases-with-overlap", "yield-events", "cache-histories-linearizable", "cache-history-operations"}
 	for _, n := range []int{2, 4, 8, 16, 64} {
 		floors = append(floors, fmt.Sprintf("goroutines.%d", n))
